@@ -40,6 +40,9 @@ structure FOps (α : Type) where
   /-- wire format of the line protocol -/
   enc : α → String
   dec : String → Option α
+  /-- the variable the field's own elements are written in (`none`: prime fields) — selects the
+      coefficient syntax of the total tokenisers of `Model/Parse.lean` -/
+  ownVar : Option String := none
 
 /-- generic `Pow` of the three element types: zero cases, exponent reduction modulo `card-1`
     when `n ≥ card`, then square-and-multiply with the in-place `Mult`. -/
